@@ -499,6 +499,22 @@ func (g *Gen) genSpecialProduct(out func() *Prog) {
 			}
 		}
 	}
+	for m := 0; m < 6; m++ { // Sqrt: NaN for every negative non-zero operand, -Inf included
+		for a := 0; a < 6; a++ {
+			for k := 0; k < 2; k++ {
+				p := out()
+				x := g.classVal(a)
+				vals := []Val{g.receiver(g.prec(true), decimal.RoundingMode(m)), x}
+				sh := []int{0, 1}
+				if k == 1 {
+					sh = []int{0, 0}
+					vals[0] = x
+				}
+				vi := p.loadShape(vals, sh)
+				p.Exec(fmt.Sprintf("sqrt %d %d", vi[0], vi[1]))
+			}
+		}
+	}
 	for m := 0; m < 6; m++ {
 		for a := 0; a < 6; a++ {
 			for b := 0; b < 6; b++ {
@@ -546,6 +562,37 @@ func (g *Gen) genCmp(p *Prog) {
 		p.cmp(a, b)
 		p.cmp(b, a)
 		c := p.Load(mk(prefix + "5000000000000000000"))
+		p.cmp(a, c)
+		p.cmp(c, b)
+		return
+	case 2: // equal leading word(s), then two lower words that differ in opposite directions
+		prefix := g.digitsPattern(19 * (1 + g.intn(2)))
+		if prefix[0] == '0' {
+			prefix = "4" + prefix[1:]
+		}
+		w := func() string { return fmt.Sprintf("%019d", g.r.Uint64()%10000000000000000000) }
+		hi1, hi2, lo1, lo2 := w(), w(), w(), w()
+		if hi1 < hi2 {
+			hi1, hi2 = hi2, hi1
+		}
+		if lo1 > lo2 {
+			lo1, lo2 = lo2, lo1
+		}
+		mid := ""
+		if g.chance(0.3) {
+			mid = w()
+		}
+		neg := g.intn(2) == 0
+		e := g.exp()
+		mk := func(d string) Val {
+			d = trimZeros(d)
+			return Val{Form: 1, Neg: neg, Digits: d, Exp: e, Prec: uint(len(d)) + uint(g.intn(3)), Mode: g.mode()}
+		}
+		a := p.Load(mk(prefix + hi1 + mid + lo1)) // larger in the higher word, smaller in the lowest
+		b := p.Load(mk(prefix + hi2 + mid + lo2))
+		p.cmp(a, b)
+		p.cmp(b, a)
+		c := p.Load(mk(prefix + hi1 + mid + lo2))
 		p.cmp(a, c)
 		p.cmp(c, b)
 		return
